@@ -278,6 +278,7 @@ def run_case(ctx, rng, idx):
 
 
 def check_immutability(ctx, rng):
+    check_union_dump_history(ctx, rng)
     """replace() / extend() return new retorts; the original and loaders already obtained keep their behaviour."""
     cfg = rng.choice(CONFIGS)
     item = rng.choice([p for p in POOL if p[1] == "load"])
@@ -415,7 +416,130 @@ def _literal_witness(ctx):
         check_history(ctx, [by["List[Rec]"], by["Holder"]], by["Rec"], cfg, "directed")
 
 
-DIRECTED = {"literal-bool-int-cache-key": _literal_witness}
+def check_union_dump_history(ctx, rng):
+    """A produced union dumper holds no run-time state: dumping object k through a retort that has dumped objects 0..k-1 gives what a
+    fresh retort gives for object k alone (seeded change: the class dispatcher wrote parent hits back into its table)."""
+    from adaptix import dumper  # noqa: PLC0415
+
+    classes = []
+    for i in range(rng.randint(4, 7)):
+        for _ in range(4):
+            bases = tuple(rng.sample(classes, min(len(classes), rng.choice([0, 1, 1, 2, 2]))))
+            try:
+                classes.append(type(f"H{i}", bases, {"__init__": lambda self: None, "__repr__": lambda self: type(self).__name__ + "()"}))
+                break
+            except TypeError:
+                continue
+    if len(classes) < 3:
+        return
+    listed = rng.sample(classes, rng.randint(2, min(4, len(classes))))
+    hint = Union[tuple(listed)]
+
+    def mk():
+        return Retort(recipe=[dumper(c, (lambda x, n=c.__name__: n)) for c in listed])
+    warm = mk()
+    order = [c() for c in classes] * 2
+    rng.shuffle(order)
+    for pos, obj in enumerate(order):
+        got, want = attempt(warm.dump, obj, hint), attempt(mk().dump, obj, hint)
+        ctx.evaluated(("union-dump-history", tuple(c.__name__ for c in listed), tuple(type(o).__name__ for o in order[:pos + 1])), nontrivial=pos > 0)
+        ctx.count("union_dump_histories")
+        same = got.kind == want.kind and (got.kind != "ok" or got.value == want.value)
+        if not same:
+            ctx.violation("history-dependent-union-dumper", f"after dumping {[type(o).__name__ for o in order[:pos]]} the retort dumps {type(obj).__name__} through Union{[c.__name__ for c in listed]} "
+                          f"as {got!r:.100}, a fresh retort as {want!r:.100}", {"classes": {c.__name__: [b.__name__ for b in c.__bases__] for c in classes}})
+            break
+
+
+def _failed_request_then_success(ctx):  # noqa: C901
+    """A request that FAILS is part of the history too: afterwards every other request gives what a fresh retort gives
+    (defect #56: the failed search left a closure with a never-bound recursion stub in the call cache)."""
+    import sys  # noqa: PLC0415
+    import types as _types  # noqa: PLC0415
+    from dataclasses import dataclass  # noqa: PLC0415
+
+    from adaptix import P, loader  # noqa: PLC0415
+
+    mod0 = _types.ModuleType("vlib_c11_failed")
+    sys.modules["vlib_c11_failed"] = mod0
+    exec(compile("from dataclasses import dataclass\nfrom typing import Optional\n"  # noqa: S102
+                 "class Weird:\n    __slots__ = ('v',)\n    def __init__(self, *args):\n        self.v = args\n"
+                 "    def __eq__(self, other):\n        return type(other) is Weird and self.v == other.v\n    __hash__ = None\n"
+                 "@dataclass\nclass M:\n    f: Optional['N'] = None\n@dataclass\nclass N:\n    m: M\n    w: Weird\n@dataclass\nclass C:\n    root: M\n",
+                 "<vlib_c11_failed>", "exec", dont_inherit=True), mod0.__dict__)
+    Weird, M, N, C = mod0.Weird, mod0.M, mod0.N, mod0.C
+
+    def mk():
+        return Retort(recipe=[loader(P[C].root.f[N].w, Weird)])     # Weird is loadable only below C.root.f: get_loader(M) must fail
+    data = {"root": {"f": {"m": {"f": {"m": {}, "w": 2}}, "w": 1}}}
+    for side in ("load", "dump"):
+        fresh = attempt(mk().load, data, C)
+        warm = mk()
+        first = attempt(warm.get_loader if side == "load" else warm.get_dumper, M)
+        out = attempt(warm.load, data, C)
+        ctx.evaluated(("failed-then-success", "loc-dependent-provider", side))
+        ctx.count("failed_request_histories")
+        if side == "load" and first.kind == "ok":
+            ctx.count("failed_request_witness_not_failing")
+        if fresh.kind != "ok" or out.kind != "ok" or not strict_eq(fresh.value, out.value):
+            ctx.violation("history-dependent:after-failed-request", f"after a failed get_{side}er(M) the retort loads C as {out!r:.200}, a fresh retort as {fresh!r:.200}", {"first": repr(first)[:200]})
+    # forward reference that becomes resolvable after the first (failing) attempt
+    mod = _types.ModuleType("vlib_c11_fwd")
+    sys.modules["vlib_c11_fwd"] = mod
+    exec(compile("from dataclasses import dataclass\n@dataclass\nclass Payload:\n    x: 'Later'\n@dataclass\nclass Node:\n    children: list['Node']\n    payload: Payload\n",  # noqa: S102
+                 "<vlib_c11_fwd>", "exec", dont_inherit=True), mod.__dict__)
+    for side in ("load", "dump"):
+        mod.__dict__.pop("Later", None)
+        warm = Retort()
+        first = attempt(warm.get_loader if side == "load" else warm.get_dumper, typing.List[mod.Node])
+        exec(compile("@dataclass\nclass Later:\n    z: int\n", "<vlib_c11_fwd2>", "exec", dont_inherit=True), mod.__dict__)  # noqa: S102
+        datum = [{"children": [{"children": [], "payload": {"x": {"z": 1}}}], "payload": {"x": {"z": 2}}}]
+        fresh, out = attempt(Retort().load, datum, typing.List[mod.Node]), attempt(warm.load, datum, typing.List[mod.Node])
+        if side == "dump" and fresh.kind == "ok":
+            fresh, out = attempt(Retort().dump, fresh.value, typing.List[mod.Node]), attempt(warm.dump, fresh.value, typing.List[mod.Node])
+        ctx.evaluated(("failed-then-success", "forward-reference", side))
+        ctx.count("failed_request_histories")
+        if first.kind == "ok":
+            ctx.count("failed_request_witness_not_failing")
+        if fresh.kind != "ok" or out.kind != "ok" or not strict_eq(fresh.value, out.value):
+            ctx.violation("history-dependent:after-failed-request", f"forward reference defined after a failed first {side}er request: same retort {out!r:.200}, fresh retort {fresh!r:.200}", {"first": repr(first)[:200]})
+
+
+def _stub_of_earlier_request(ctx):
+    """Known finding: recursion stubs are keyed by the LAST location only and field locations carry no owner, so X.m, Y.m and N.m are
+    'the same position'; a closure cached for the request X is reused for Y, which a fresh retort serves differently."""
+    from dataclasses import dataclass  # noqa: PLC0415
+
+    from adaptix import Chain, P, loader  # noqa: PLC0415
+
+    import sys  # noqa: PLC0415
+    import types as _types  # noqa: PLC0415
+
+    mod0 = _types.ModuleType("vlib_c11_stub")
+    sys.modules["vlib_c11_stub"] = mod0
+    exec(compile("from dataclasses import dataclass\nfrom typing import Optional\n@dataclass\nclass M:\n    f: Optional['N'] = None\n    tag: str = ''\n"  # noqa: S102
+                 "@dataclass\nclass N:\n    m: M\n@dataclass\nclass X:\n    m: M\n@dataclass\nclass Y:\n    m: M\n", "<vlib_c11_stub>", "exec", dont_inherit=True), mod0.__dict__)
+    X, Y = mod0.X, mod0.Y
+
+    def mark(m):
+        m.tag += "!"
+        return m
+
+    def mk():
+        return Retort(recipe=[loader(P[Y].m, mark, Chain.LAST)])
+    data = {"m": {"f": {"m": {"f": {"m": {}}}}}}
+    fresh = attempt(mk().load, data, Y)
+    warm = mk()
+    warm.get_loader(X)
+    out = attempt(warm.load, data, Y)
+    ctx.evaluated(("stub-of-earlier-request",))
+    ctx.count("stub_reuse_histories")
+    if fresh.kind != "ok" or out.kind != "ok" or not strict_eq(fresh.value, out.value):
+        ctx.violation("history-dependent:recursion-stub-of-earlier-request-reused", f"after get_loader(X) the retort loads Y as {out!r:.200}, a fresh retort as {fresh!r:.200}", {})
+
+
+DIRECTED = {"literal-bool-int-cache-key": _literal_witness, "failed-request-then-success": _failed_request_then_success,
+            "recursion-stub-of-earlier-request": _stub_of_earlier_request}
 
 
 def teardown(ctx):
